@@ -56,9 +56,12 @@ type astCoverage struct {
 	pkg      *types.Package
 	written  map[string]string // field → parser function that sets it
 	parserFn int
+	fam      *astFamily
 }
 
-func loadASTCoverage(c *Check) *astCoverage {
+func loadASTCoverage(c *Check) *astCoverage { return loadASTCoverageFor(c, tl1Family) }
+
+func loadASTCoverageFor(c *Check, fam *astFamily) *astCoverage {
 	r := loadRepoFuncs(c, "./internal/tlast")
 	if r == nil {
 		return nil
@@ -67,7 +70,7 @@ func loadASTCoverage(c *Check) *astCoverage {
 	if p == nil {
 		return nil
 	}
-	a := &astCoverage{r: r, p: p, written: map[string]string{}}
+	a := &astCoverage{r: r, p: p, written: map[string]string{}, fam: fam}
 	tracked := map[string]bool{}
 	var parserFuncs []*FuncInfo
 	for name, fi := range r.funcs {
@@ -76,11 +79,11 @@ func loadASTCoverage(c *Check) *astCoverage {
 		}
 		a.pkg = fi.Pkg.Types
 		file := filepath.Base(r.co.Fset.Position(fi.Decl.Pos()).Filename)
-		if (file == "tlparser_code.go" || file == "tlparser_typeref.go") && (strings.HasPrefix(fi.Name(), "parse") || strings.HasPrefix(fi.Name(), "ParseTL")) {
+		if fam.parserFiles[file] && (strings.HasPrefix(fi.Name(), "parse") || strings.HasPrefix(fi.Name(), "ParseTL")) {
 			parserFuncs = append(parserFuncs, fi)
 		}
 	}
-	for s := range astStructs {
+	for s := range fam.structs {
 		for _, f := range structFieldNames(a.pkg, s) {
 			if !layoutField(a.pkg, f) {
 				tracked[f] = true
@@ -101,7 +104,7 @@ func loadASTCoverage(c *Check) *astCoverage {
 func (a *astCoverage) readsFrom(roots ...*ssa.Function) (map[string]string, int) {
 	out := map[string]string{}
 	n := 0
-	structs := astStructs
+	structs := a.fam.structs
 	byObj := map[*types.Func]*FuncInfo{}
 	for _, fi := range a.r.funcs {
 		byObj[fi.Obj] = fi
@@ -156,7 +159,7 @@ func checkC21(c *Check) {
 		c.Ob("printer/parsed-field-is-printed", f, ok, "", fmt.Sprintf("written by %s; read by printer function %s", a.written[f], orStr(reads[f], "— none —")))
 	}
 	c.Floor("printer/parsed-field-is-printed", 15)
-	printerOrderFollowsParser(c, a.r, a.pkg)
+	printerOrderFollowsParser(c, a.r, a.pkg, tl1Family)
 	c.Floor("printer/field-order-follows-parser", 6)
 }
 
